@@ -1457,6 +1457,11 @@ class CalendarDateRange(Range):
         if allow_None and val is None:
             return
 
+        if not isinstance(val, tuple):
+            raise ValueError(
+                f"{_validate_error_prefix(self)} only takes a tuple value, "
+                f"not {type(val)}."
+            )
         for n in val:
             if not isinstance(n, dt.date):
                 raise ValueError(
